@@ -249,6 +249,110 @@ FOOTER_CMD = """Definition src_args2cmd (args : list text) (sep : text) : text :
 """
 
 
+# ---------------------------------------------------------------------------------- args2sh
+def _guards_to_ifelse(stmts):
+    """[if c: A; continue] + rest  ->  [if c: A else: rest]   (same behaviour inside a loop body)"""
+    out = []
+    for i, s in enumerate(stmts):
+        if isinstance(s, ast.If) and not s.orelse and s.body and isinstance(s.body[-1], ast.Continue):
+            if any(isinstance(n, ast.Continue) for b in s.body[:-1] for n in ast.walk(b)):
+                raise U("continue in non-tail position")
+            rest = _guards_to_ifelse(stmts[i + 1:])
+            out.append(ast.If(test=s.test, body=(s.body[:-1] or [ast.Pass()]), orelse=(rest or [ast.Pass()])))
+            return out
+        if any(isinstance(n, ast.Continue) for n in ast.walk(s)):
+            raise U("continue of an unknown shape")
+        out.append(s)
+    return out
+
+
+def normalise_sh(node):
+    loops = [s for s in node.body if isinstance(s, ast.For)]
+    if len(loops) != 1 or loops[0].orelse:
+        raise U("expected exactly one for loop without else")
+    if any(isinstance(n, (ast.Break, ast.While, ast.Try, ast.With, ast.Raise, ast.Yield)) for n in ast.walk(node)):
+        raise U("unexpected control flow in args2sh")
+    loop = loops[0]
+    loop.body = _guards_to_ifelse(loop.body)
+    # _find_sh_unsafe(arg) is None   ->   __all_safe(arg)      (the class itself is the regenerated table)
+    class R(ast.NodeTransformer):
+        def visit_Compare(self, c):
+            if (len(c.ops) == 1 and isinstance(c.ops[0], ast.Is) and isinstance(c.comparators[0], ast.Constant)
+                    and c.comparators[0].value is None and isinstance(c.left, ast.Call)
+                    and _is_name(c.left.func, "_find_sh_unsafe") and len(c.left.args) == 1 and not c.left.keywords):
+                return ast.Call(func=ast.Name(id="__all_safe", ctx=ast.Load()), args=c.left.args, keywords=[])
+            raise U("comparison of an unknown shape in args2sh")
+    for i, s in enumerate(loop.body):
+        loop.body[i] = R().visit(s)
+    last = node.body[-1]
+    ok = (isinstance(last, ast.Return) and _method_call(last.value, "join", 1) and
+          isinstance(last.value.func.value, ast.Constant) and isinstance(last.value.func.value.value, str) and
+          _is_name(last.value.args[0], "ret_list"))
+    if not ok or sum(isinstance(n, ast.Return) for n in ast.walk(node)) != 1:
+        raise U("args2sh must end in  return <constant>.join(ret_list)")
+    sep = last.value.func.value.value
+    node.body[-1] = ast.Return(value=ast.Name(id="ret_list", ctx=ast.Load()))
+    ast.fix_missing_locations(node)
+    return node, sep
+
+
+def _codes(txt):
+    return "[" + "; ".join("%d%%N" % ord(ch) for ch in txt) + "]"
+
+
+def _sh_piece(T, e, scope):
+    if isinstance(e, ast.Constant) and isinstance(e.value, str):
+        return _codes(e.value)
+    if _is_name(e) and T.cfg["kinds"].get(e.id) == "text":
+        if e.id not in scope:
+            raise U("unbound %s" % e.id)
+        return e.id
+    if isinstance(e, ast.BinOp) and isinstance(e.op, ast.Add):
+        return "(%s ++ %s)" % (_sh_piece(T, e.left, scope), _sh_piece(T, e.right, scope))
+    if _method_call(e, "replace", 2) and _is_name(e.func.value) and T.cfg["kinds"].get(e.func.value.id) == "text":
+        a, b = e.args
+        if not (isinstance(a, ast.Constant) and isinstance(a.value, str) and len(a.value) == 1 and
+                isinstance(b, ast.Constant) and isinstance(b.value, str)):
+            raise U("replace() arguments")
+        if e.func.value.id not in scope:
+            raise U("unbound name")
+        # str.replace with a one-character pattern = character-wise substitution
+        return "(flat_map (fun ch => if ch =? %d%%N then %s else [ch]) %s)" % (ord(a.value), _codes(b.value), e.func.value.id)
+    raise U("piece %s" % ast.dump(e))
+
+
+def shape_ret_append(T, s, probe, scope=None):
+    if not (isinstance(s, ast.Expr) and _method_call(s.value, "append", 1) and _is_name(s.value.func.value, "ret_list")):
+        return None
+    if probe:
+        return ["ret_list"]
+    return "let ret_list := ret_list ++ [%s] in\n" % _sh_piece(T, s.value.args[0], scope)
+
+
+CFG_SH = {
+    "name": "src_args2sh_pieces",
+    "params": [("args", "list text"), ("sep", "text")],
+    "defaults": {"sep": "' '"},
+    "ret": "list text", "num": "Z",
+    "kinds": {"args": "list", "sep": "text", "ret_list": "list", "arg": "text"},
+    "calls": {"__all_safe": ("all_safe safe", "bool")},
+    "truthy": {"text": "src_nonempty", "list": "src_nonempty"},
+    "shapes": [shape_ret_append],
+}
+
+HEADER_SH = """
+(* ---- args2sh: ret_list is the list of pieces; _find_sh_unsafe(arg) is None is the test of the
+   regenerated class (all_safe safe); the function returns %s.join(ret_list) ---- *)
+From Boltons Require Import Model.C14_Model.
+Section SrcSh.
+Variable safe : N -> bool.
+"""
+
+FOOTER_SH = """Definition src_args2sh (args : list text) (sep : text) : text := join %s (src_args2sh_pieces args sep).
+End SrcSh.
+"""
+
+
 CFG = {
     "name": "src_format_int_list",
     "params": [("int_list", "list Z"), ("delim", "text"), ("range_delim", "text"), ("delim_space", "bool")],
@@ -281,8 +385,10 @@ def generate(repo):
     path = os.path.join(repo, "boltons", "strutils.py")
     node = normalise(py2coq.get_function(path, "format_int_list"))
     cmd = normalise_cmd(py2coq.get_function(path, "args2cmd"))
+    sh, sep = normalise_sh(py2coq.get_function(path, "args2sh"))
     return {"C14_Src": HEADER % path + py2coq.Translator(dict(CFG)).function(node)
-            + HEADER_CMD + py2coq.Translator(dict(CFG_CMD)).function(cmd) + FOOTER_CMD}
+            + HEADER_CMD + py2coq.Translator(dict(CFG_CMD)).function(cmd) + FOOTER_CMD
+            + HEADER_SH % repr(sep) + py2coq.Translator(dict(CFG_SH)).function(sh) + FOOTER_SH % _codes(sep)}
 
 
 if __name__ == "__main__":
